@@ -38,8 +38,16 @@ RULE = ('(a) interp: label vectors over {0,1,2,3} x geometry x data: every label
         'and outside them, PSD planted on both sides of the threshold) -> its own feature vectors through the model decision rule, labels '
         'exact; (c) mode: the real detect_bad_channels_cbin on small flat binary files, per-batch labels observed (and, for ties, planted) '
         'through a recording wrapper -> model mode, and the sample slices it reads -> Float twin of linspace/int, both exact; '
+        'every part draws the input FORM (dtype, memory layout, scalar types, positional/keyword spelling, Reader/str/Path) independently of the values; '
         '(d) numeric oracle: silent / noisy / outside-brain faults injected on coherent AP backgrounds, labels checked directly')
 ASSUMPTIONS = [
+    'input forms (drawn independently of the values, recorded in tags and replays): interp data dtype float64/float32/int16/int32, C/F order, transposed and strided views, '
+    'labels int64/int32/int8/float64 arrays, x/y float64/float32/int64, positional (signature order data, channel_labels, x, y, p, kriging_distance_um) or keyword call; '
+    'detect_bad_channels raw float64/float32 in C/F/transposed layout, fs as Python/NumPy int/float, positional (raw, fs, similarity_threshold, psd_hf_threshold) or keyword; '
+    'detect_bad_channels_cbin given an open Reader, a str or a pathlib.Path, n_batches/batch_duration positional or keyword, n_batches int or np.int64',
+    'forms the API does not support and that are therefore not generated: read-only data (the function works in place: ValueError), labels as a Python list (ValueError in np.where), '
+    'raw in integer counts for detect_bad_channels (volts by contract, the PSD threshold is in uV^2/Hz), non-finite DONOR samples',
+    'integer-typed data: values demanded within ONE COUNT of the weighted mean / of the donors\' range (known finding int-data-truncation: the float mean is truncated toward zero on assignment)',
     'interp: labels, x, y and data rows all have length nc (the code raises or silently ignores entries otherwise; not part of the property); float64 or float32; non-finite samples only where the property says they must not matter (bad channels, good channels that are nobody\'s donor) — a non-finite donor legitimately gives a non-finite repair',
     'interp: Float twin compared with tolerance 1e-9*scale (float64) / 2e-6*scale (float32), scale = max |donor candidates|: BLAS matmul order, hypot vs sqrt; '
     'cases in which a raw weight lies within 1e-9 (relative) of the 0.005 cut-off are skipped (never drawn in practice)',
@@ -151,17 +159,19 @@ def label_vector(kind, nc, rng):
 
 
 LABEL_KINDS = ('none', 'all-bad', 'single', 'ends', 'cluster', 'random', 'mostly-bad', 'top3')
-DATA_KINDS = ('normal', 'const', 'ramp', 'outlier', 'ints')
+DATA_KINDS = ('normal', 'const', 'ramp', 'outlier', 'ints', 'pedestal')
 NONFINITE = ('none', 'channel', 'stretch', 'samples')
 
 
 def data_matrix(kind, nc, ns, lab, y, rng):
     if kind == 'const':
-        d = np.full((nc, ns), float(rng.choice([10., -3.5, 1e-5, 32767.])))
+        d = np.full((nc, ns), float(rng.choice([10., -3.5, 1e-5, 32767., 100.])))
     elif kind == 'ramp':
         d = y[:, None] * 0.5 + np.arange(ns)[None, :] * 1.0
     elif kind == 'ints':
         d = rng.integers(-32768, 32768, (nc, ns)).astype(float)
+    elif kind == 'pedestal':                      # a range that excludes 0 (raw counts around an offset)
+        d = float(rng.choice([1000., -2000., 300.])) + rng.uniform(0, 100, (nc, ns))
     elif kind == 'outlier':
         d = rng.uniform(1, 2, (nc, ns))
         bad = (lab == 1) | (lab == 2)
@@ -171,10 +181,67 @@ def data_matrix(kind, nc, ns, lab, y, rng):
     return np.ascontiguousarray(d, dtype=float)
 
 
+# --- input forms: the same mathematical call in its legitimate representations -----------------
+DTYPES = ('float64', 'float32', 'int16', 'int32')
+ORDERS = ('C', 'F', 'T', 'strided')
+DEFAULT_FORM = dict(dtype='float64', order='C', labels='int64', xy='float64', call='kw')
+
+
+def draw_form(rng):
+    return dict(dtype=str(rng.choice(DTYPES, p=[.4, .2, .2, .2])), order=str(rng.choice(ORDERS, p=[.55, .15, .15, .15])),
+                labels=str(rng.choice(['int64', 'float64', 'int8', 'int32'], p=[.5, .3, .1, .1])),
+                xy=str(rng.choice(['float64', 'float32', 'int'], p=[.6, .2, .2])), call=str(rng.choice(['kw', 'pos', 'kw-all'], p=[.5, .4, .1])))
+
+
+def apply_form(c, form):
+    """make the VALUES of the case representable in the drawn form (the model sees exactly the values the code sees)"""
+    f = dict(form)
+    d = c['data']
+    if f['dtype'].startswith('int'):
+        if np.all(np.abs(d) < 2):
+            d = d * 1000.
+        info = np.iinfo(f['dtype'])
+        d = np.clip(np.rint(d), info.min, info.max)
+    elif f['dtype'] == 'float32':
+        d = d.astype(np.float32).astype(float)
+    c['data'] = np.ascontiguousarray(d, dtype=float)
+    if f['xy'] == 'int' and not (np.all(c['x'] == np.rint(c['x'])) and np.all(c['y'] == np.rint(c['y']))):
+        f['xy'] = 'float64'
+    if f['xy'] == 'float32':
+        c['x'], c['y'] = c['x'].astype(np.float32).astype(float), c['y'].astype(np.float32).astype(float)
+    c['form'] = f
+    c['f32'] = f['dtype'] == 'float32'
+    return ('dtype=' + f['dtype'], 'order=' + f['order'], 'labeldtype=' + f['labels'], 'xy=' + f['xy'], 'call=' + f['call'])
+
+
+def _form(c):
+    f = dict(DEFAULT_FORM)
+    if c.get('f32'):
+        f['dtype'] = 'float32'
+    f.update(c.get('form') or {})
+    return f
+
+
+def native_data(c):
+    """the data matrix in the case's dtype and memory layout (a fresh array each time: the function works in place)"""
+    f = _form(c)
+    d = c['data'].astype(f['dtype'])                      # exact: the values were made representable by apply_form
+    if f['order'] == 'F':
+        return np.asfortranarray(d)
+    if f['order'] == 'T':
+        return np.ascontiguousarray(d.T).T                # transposed view of a (ns, nc) C array
+    if f['order'] == 'strided':
+        big = np.full((2 * d.shape[0] + 1, 2 * d.shape[1] + 1), 77, dtype=d.dtype)
+        v = big[1::2, ::2][:d.shape[0], :d.shape[1]]
+        v[...] = d
+        return v
+    return np.ascontiguousarray(d)
+
+
 def plant_nonfinite(c, how, rng, far=True):
     """NaN / +inf / -inf in BAD channels (whole channel, a stretch, single samples) and, optionally, in good channels
     that are no bad channel's donor: none of these rows may influence the result.  Donor rows stay finite."""
-    if how == 'none':
+    if how == 'none' or _form(c)['dtype'].startswith('int'):
         return ()
     lab, d = c['lab'], c['data']
     bad = np.where((lab == 1) | (lab == 2))[0]
@@ -195,7 +262,7 @@ def plant_nonfinite(c, how, rng, far=True):
     if far:
         W = _raw_weights(c)
         isbad = (lab == 1) | (lab == 2)
-        nondonor = np.where(~isbad & ~np.any(W[isbad] >= CUT * (1 - 1e-6), axis=0))[0]
+        nondonor = np.where(~isbad & ~np.any(W[isbad] >= CUT * (1 - 1e-4), axis=0))[0]
         if nondonor.size and rng.random() < .5:
             d[int(rng.choice(nondonor)), int(rng.integers(0, ns))] = np.nan
             tags.append('nan-in-good-non-donor')
@@ -203,7 +270,7 @@ def plant_nonfinite(c, how, rng, far=True):
 
 
 def interp_cases(ctx):
-    """yield dict(nc, ns, lab, x, y, data, p, krig, f32, tags)"""
+    """list of dict(nc, ns, lab, x, y, data, p, krig, default, form, tags); data/x/y hold the float64 VALUES"""
     rng = ctx.rng
     out = []
     P0, K0 = float(ctx.consts.get('INTERP_P', 1.3)), float(ctx.consts.get('INTERP_KRIGING_UM', 20))   # defaults of the signature
@@ -218,8 +285,9 @@ def interp_cases(ctx):
             for code in range(4 ** nc):
                 lab = np.array([(code // 4 ** k) % 4 for k in range(nc)], dtype=int)
                 dk = DATA_KINDS[code % len(DATA_KINDS)]
-                c = dict(nc=nc, ns=2, lab=lab, x=x, y=y, data=data_matrix(dk, nc, 2, lab, y, rng), p=P0, krig=K0, default=True,
-                         f32=False, tags=('interp', 'exhaustive-small', 'geom=' + gk, 'data=' + dk))
+                c = dict(nc=nc, ns=2, lab=lab, x=x.copy(), y=y.copy(), data=data_matrix(dk, nc, 2, lab, y, rng), p=P0, krig=K0, default=True,
+                         tags=('interp', 'exhaustive-small', 'geom=' + gk, 'data=' + dk))
+                c['tags'] += apply_form(c, draw_form(rng))
                 c['tags'] += plant_nonfinite(c, NONFINITE[(code // len(DATA_KINDS)) % len(NONFINITE)], rng)
                 out.append(c)
     for _ in range(ctx.n(400, 3000)):
@@ -237,25 +305,33 @@ def interp_cases(ctx):
             p, krig = P0, K0
         else:
             p, krig = float(rng.choice([1.0, 2.0, 0.5, 1.3])), float(rng.choice([10., 40., 200., 20.]))
-        f32 = bool(rng.random() < .3)
-        if f32:
-            d = d.astype(np.float32).astype(float)
-        c = dict(nc=nc, ns=ns, lab=lab, x=x, y=y, data=d, p=p, krig=krig, default=dflt, f32=f32, float_labels=bool(rng.random() < .3),
-                 tags=('interp', 'random', 'geom=' + gk, 'labels=' + lk, 'data=' + dk,
-                       'f32' if f32 else 'f64', 'default-params' if dflt else 'other-params'))
+        c = dict(nc=nc, ns=ns, lab=lab, x=x, y=y, data=d, p=p, krig=krig, default=dflt,
+                 tags=('interp', 'random', 'geom=' + gk, 'labels=' + lk, 'data=' + dk, 'default-params' if dflt else 'other-params'))
+        c['tags'] += apply_form(c, draw_form(rng))
         c['tags'] += plant_nonfinite(c, str(rng.choice(NONFINITE, p=[.5, .2, .15, .15])), rng)
         out.append(c)
     return out
 
 
 def run_interp(c):
-    """the real code on one case; returns the output matrix (float64 view) or ('err', name)"""
+    """the real code on one case, called in the case's form; returns the output array (native dtype) or ('err', name)"""
     from ibldsp import voltage
-    d = c['data'].astype(np.float32) if c['f32'] else c['data'].copy()
-    lab = c['lab'].astype(float) if c.get('float_labels') else c['lab'].copy()
-    kw = {} if c.get('default') else dict(p=c['p'], kriging_distance_um=c['krig'])   # default cases use the signature's own defaults
+    f = _form(c)
+    d = native_data(c)
+    lab = c['lab'].astype(f['labels'])
+    xt = {'float64': float, 'float32': np.float32, 'int': np.int64}[f['xy']]
+    x, y = c['x'].astype(xt), c['y'].astype(xt)
+    dflt = bool(c.get('default'))                        # default cases use the signature's own defaults
     try:
-        r = _quiet(voltage.interpolate_bad_channels, d, channel_labels=lab, x=c['x'].copy(), y=c['y'].copy(), **kw)
+        if f['call'] == 'pos':                           # positional, in the order of the documented signature
+            a = (d, lab, x, y) if dflt else (d, lab, x, y, c['p'], c['krig'])
+            r = _quiet(voltage.interpolate_bad_channels, *a)
+        else:
+            kw = {} if dflt else dict(p=c['p'], kriging_distance_um=c['krig'])
+            if f['call'] == 'kw-all':
+                r = _quiet(voltage.interpolate_bad_channels, data=d, channel_labels=lab, x=x, y=y, **kw)
+            else:
+                r = _quiet(voltage.interpolate_bad_channels, d, channel_labels=lab, x=x, y=y, **kw)
     except Exception as e:  # noqa
         return ('err', type(e).__name__)
     return np.asarray(r)
@@ -269,18 +345,23 @@ def _raw_weights(c):
         return np.exp(-((d / c['krig']) ** c['p']))
 
 
+def _tolerances(c):
+    """(relative tolerance, absolute slack in counts, relative margin around the cut-off) for the case's form"""
+    f = _form(c)
+    single = f['dtype'] == 'float32' or f['xy'] == 'float32'      # float32 coordinates make the weights float32
+    return (2e-6 if single else 1e-9), (1.0 if f['dtype'].startswith('int') else 0.0), (1e-5 if f['xy'] == 'float32' else 1e-9)
+
+
 def interp_line(c):
     return ' '.join(['interp', str(c['nc']), str(c['ns']), _bits([c['p']]), _bits([c['krig']]), _ints(c['lab']),
                      _bits(c['x']), _bits(c['y']), _bits(c['data'])])
 
 
-def _canon_interp(c, out):
-    """exact part of the comparison for one output matrix: untouched rows, all-zero bad rows."""
-    lab, d = c['lab'], c['data']
+def _canon_interp(c, din, out):
+    """exact part of the comparison (din, out in one dtype): untouched rows, all-zero bad rows."""
+    lab = c['lab']
     bad = (lab == 1) | (lab == 2)
-    din = d.astype(np.float32) if c['f32'] else d
-    out_t = out.astype(np.float32) if c['f32'] else out
-    touched = [int(j) for j in np.where(~bad)[0] if din[j].tobytes() != out_t[j].tobytes()]
+    touched = [int(j) for j in np.where(~bad)[0] if np.ascontiguousarray(din[j]).tobytes() != np.ascontiguousarray(out[j]).tobytes()]
     zero = [int(j) for j in np.where(bad)[0] if not np.any(out[j] != 0)]
     return touched, zero
 
@@ -293,11 +374,13 @@ def corr_interp(ctx):
     for c, a in zip(cases, ans):
         lab = c['lab']
         bad = (lab == 1) | (lab == 2)
+        f = _form(c)
+        rel, counts, margin = _tolerances(c)
         desc = {'op': 'interp', 'nc': c['nc'], 'ns': c['ns'], 'labels': ''.join(map(str, lab.tolist())) if c['nc'] <= 64 else
                 f'{int(bad.sum())} bad', 'geom': [t for t in c['tags'] if t.startswith('geom=')][0], 'p': c['p'], 'krig': c['krig'],
-                'f32': c['f32'], 'x0': float(c['x'][0]), 'd0': float(c['data'][0, 0])}
+                'form': '/'.join(f[k] for k in ('dtype', 'order', 'labels', 'xy', 'call')), 'x0': float(c['x'][0]), 'd0': float(c['data'][0, 0])}
         W = _raw_weights(c)[bad]
-        if W.size and np.any(np.abs(W - CUT) < 1e-9 * CUT):
+        if W.size and np.any(np.abs(W - CUT) < margin * CUT):
             nskip += 1
             ctx.case(desc, nontrivial=False, tags=('interp', 'skipped-float-edge'))
             continue
@@ -306,14 +389,18 @@ def corr_interp(ctx):
             impl_s, model_s = f'err {out[1]}', a[:60]
         elif not a.startswith('ok '):
             impl_s, model_s = 'ok', a[:60]
+        elif out.shape != (c['nc'], c['ns']) or str(out.dtype) != f['dtype']:
+            impl_s, model_s = f'shape {out.shape} dtype {out.dtype}', f"shape {(c['nc'], c['ns'])} dtype {f['dtype']}"
         else:
             m = _unbits(a[3:]).reshape(c['nc'], c['ns'])
-            t_i, z_i = _canon_interp(c, out.astype(float))
-            t_m, z_m = _canon_interp(c, m)
+            t_i, z_i = _canon_interp(c, c['data'].astype(f['dtype']), out)
+            t_m, z_m = _canon_interp(c, c['data'], m)
+            if counts:      # integer data: a mean inside (-1, 1) truncates to 0 — extra zero rows are covered by the one-count value check
+                z_i = [j for j in z_i if j in z_m]
             cand = c['data'][~bad]
             cand = cand[np.isfinite(cand)]
             scale = float(np.max(np.abs(cand))) if cand.size else 0.0
-            tol = (2e-6 if c['f32'] else 1e-9) * scale
+            tol = rel * scale + counts          # integer data: the assignment truncates, within one count of the weighted mean
             o = out.astype(float)
             fin = np.isfinite(o) & np.isfinite(m)
             same_nonfinite = bool(np.all((np.isnan(o) & np.isnan(m)) | (o == m) | fin))   # NaN/inf only where the other has the same
@@ -321,7 +408,7 @@ def corr_interp(ctx):
             close = same_nonfinite and err <= tol
             if not same_nonfinite:
                 err = float('nan')
-            impl_s = f'touched={t_i} zero={z_i} values=' + ('ok' if close else f'{out.astype(float).ravel()[:6].tolist()} (max err {err:.3g} > {tol:.3g})')
+            impl_s = f'touched={t_i} zero={z_i} values=' + ('ok' if close else f'{o.ravel()[:6].tolist()} (max err {err:.3g} > {tol:.3g})')
             model_s = f'touched={t_m} zero={z_m} values=' + ('ok' if close else f'{m.ravel()[:6].tolist()}')
         nb = int(bad.sum())
         ok = ctx.compare('interp', desc, impl_s, model_s, nontrivial=nb > 0,
@@ -332,60 +419,64 @@ def corr_interp(ctx):
         if not ok:
             ctx.mismatches[-1]['payload'] = _interp_payload(c)
     if nskip:
-        ctx.note(f'interp: {nskip} case(s) skipped because a raw weight was within 1e-9 (relative) of the cut-off')
+        ctx.note(f'interp: {nskip} case(s) skipped because a raw weight was within the float margin of the cut-off')
 
 
 def _interp_payload(c):
     return {'kind': 'interp', 'nc': c['nc'], 'ns': c['ns'], 'labels': c['lab'].tolist(), 'x': c['x'].tolist(), 'y': c['y'].tolist(),
-            'data': c['data'].tolist(), 'p': c['p'], 'krig': c['krig'], 'default_params': bool(c.get('default')), 'f32': c['f32']}
+            'data': c['data'].tolist(), 'p': c['p'], 'krig': c['krig'], 'default_params': bool(c.get('default')), 'form': _form(c)}
 
 
 def _interp_from_payload(p):
     return dict(nc=p['nc'], ns=p['ns'], lab=np.array(p['labels'], dtype=int), x=np.array(p['x'], dtype=float),
                 y=np.array(p['y'], dtype=float), data=np.array(p['data'], dtype=float).reshape(p['nc'], p['ns']),
-                p=p['p'], krig=p['krig'], default=p.get('default_params', False), f32=p['f32'], tags=())
+                p=p['p'], krig=p['krig'], default=p.get('default_params', False), f32=p.get('f32', False), form=p.get('form'), tags=())
 
 
 def oracle_interp(c):
-    """C15 (repair) stated directly on the real code.  None when it holds, else a description.
-    'nearby' = raw decay weight exp(-(d/kriging)^p) of at least 0.005 (d <= 72.1 um with the defaults)."""
+    """C15 (repair) stated directly, on VALUES, on the real code called in the case's form.  None when it holds.
+    'nearby' = raw decay weight exp(-(d/kriging)^p) of at least 0.005 (d <= 72.1 um with the defaults).
+    Integer data: one count of slack (known finding int-data-truncation: the assignment truncates toward zero)."""
     lab = c['lab']
     bad = (lab == 1) | (lab == 2)
+    f = _form(c)
+    fs = '/'.join(f[k] for k in ('dtype', 'order', 'labels', 'xy', 'call'))
     out = run_interp(c)
     if isinstance(out, tuple):
-        return f'interpolate_bad_channels raised {out[1]}'
-    din = c['data'].astype(np.float32) if c['f32'] else c['data']
+        return f'interpolate_bad_channels raised {out[1]} (form {fs})'
+    din = c['data'].astype(f['dtype'])
     if out.shape != din.shape:
-        return f'output shape {out.shape} != input shape {din.shape}'
+        return f'output shape {out.shape} != input shape {din.shape} (form {fs})'
     for j in np.where(~bad)[0]:
-        if out[j].tobytes() != din[j].tobytes():
+        if np.ascontiguousarray(out[j]).astype(din.dtype).tobytes() != din[j].tobytes():
             t = int(np.where(out[j] != din[j])[0][0]) if np.any(out[j] != din[j]) else 0
             return (f'channel {int(j)} (label {int(lab[j])}, not dead/noisy) was modified: sample {t} '
-                    f'{float(din[j, t])!r} -> {float(out[j, t])!r}')
+                    f'{float(din[j, t])!r} -> {float(out[j, t])!r} (form {fs})')
     W = _raw_weights(c)
-    rel = 2e-6 if c['f32'] else 1e-9
+    rel, counts, margin = _tolerances(c)
     for i in np.where(bad)[0]:
         w = W[i]
-        if np.any(np.abs(w - CUT) < 1e-9 * CUT):
+        if np.any(np.abs(w - CUT) < margin * CUT):
             continue
         donors = np.where(~bad & (w >= CUT))[0]
         if donors.size == 0:
             if np.any(out[i] != 0):
-                return f'bad channel {int(i)} has no nearby good/outside channel but was not zeroed: {out[i][:4].tolist()}'
+                return f'bad channel {int(i)} has no nearby good/outside channel but was not zeroed: {out[i][:4].tolist()} (form {fs})'
             continue
         dd = din[donors].astype(float)
         okt = np.all(np.isfinite(dd), axis=0)          # samples at which every donor is finite (elsewhere nothing is demanded)
         if not okt.any():
             continue
         lo, hi = dd.min(axis=0), dd.max(axis=0)
-        tol = rel * max(float(np.max(np.abs(dd[:, okt]))), 1e-300)
+        tol = rel * max(float(np.max(np.abs(dd[:, okt]))), 1e-300) + counts
         o = out[i].astype(float)
         viol = np.where(okt & ((o < lo - tol) | (o > hi + tol) | ~np.isfinite(o)))[0]
         if viol.size:
             t = int(viol[0])
             nf = [(int(a), int(b)) for a, b in zip(*np.where(~np.isfinite(din.astype(float))))][:6]
             return (f'bad channel {int(i)} sample {t}: repaired value {float(o[t])!r} outside the range '
-                    f'[{float(lo[t])!r}, {float(hi[t])!r}] of its {donors.size} nearby good/outside channels {donors[:8].tolist()} (all finite)'
+                    f'[{float(lo[t])!r}, {float(hi[t])!r}] of its {donors.size} nearby good/outside channels {donors[:8].tolist()} (all finite'
+                    + (', one count of slack for integer data' if counts else '') + f'; form {fs})'
                     + (f'; non-finite input samples (channel, sample) {nf} lie in channels that are not donors' if nf else ''))
     return None
 
@@ -459,15 +550,46 @@ def fault_in_domain(f):
             noisy_position_allowed(f['nc'], f.get('noisy'), f.get('noisy_kind', 'add'), f.get('top', 0), f.get('dead')))
 
 
-def oracle_fault(f):
-    """C15 (detection) stated directly on the real code.  f: dict(seed, nc, ns, fs, dead, noisy, noisy_kind, top)"""
+DETECT_FORM = dict(dtype='float64', order='C', fs='float', call='pos')
+
+
+def draw_detect_form(rng):
+    return dict(dtype=str(rng.choice(['float64', 'float32'])), order=str(rng.choice(['C', 'F', 'T'], p=[.6, .2, .2])),
+                fs=str(rng.choice(['float', 'int', 'np.float64', 'np.int64'])), call=str(rng.choice(['pos', 'kw', 'pos-all', 'kw-all'])))
+
+
+def call_detect(x, fs, form=None, thr=None, psd=None):
+    """the real detect_bad_channels on the recording x (volts) in a given input form: dtype and memory layout of raw, fs as
+    Python/NumPy int/float (integral sampling rates only), positional (current signature order raw, fs, similarity_threshold,
+    psd_hf_threshold) or keyword arguments.  thr/psd None = the signature's defaults (not passed unless call is *-all)."""
     from ibldsp import voltage
+    f = dict(DETECT_FORM)
+    f.update(form or {})
+    raw = x.astype(f['dtype'])
+    raw = np.asfortranarray(raw) if f['order'] == 'F' else np.ascontiguousarray(raw.T).T if f['order'] == 'T' else np.ascontiguousarray(raw)
+    if float(fs) == int(fs):
+        fsv = {'float': float(fs), 'int': int(fs), 'np.float64': np.float64(fs), 'np.int64': np.int64(fs)}[f['fs']]
+    else:
+        fsv = float(fs)
+    explicit = thr is not None or psd is not None
+    t = tuple(thr) if thr is not None else (-0.5, 1)
+    if f['call'] == 'pos-all' or (f['call'] == 'pos' and explicit):
+        return _quiet(voltage.detect_bad_channels, raw, fsv, t, psd)
+    if f['call'] == 'kw-all' or (f['call'] == 'kw' and explicit):
+        return _quiet(voltage.detect_bad_channels, raw=raw, fs=fsv, similarity_threshold=t, psd_hf_threshold=psd)
+    if f['call'] == 'kw':
+        return _quiet(voltage.detect_bad_channels, raw, fs=fsv)
+    return _quiet(voltage.detect_bad_channels, raw, fsv)
+
+
+def oracle_fault(f):
+    """C15 (detection) stated directly on the real code.  f: dict(seed, nc, ns, fs, dead, noisy, noisy_kind, top[, form])"""
     x = synth_fault(f['seed'], f['nc'], f['ns'], f.get('fs', 30000.), f.get('dead'), f.get('noisy'),
                     f.get('noisy_kind', 'add'), f.get('top', 0), silent_uv=f.get('silent_uv', 0.))
     try:
-        lab, feats = _quiet(voltage.detect_bad_channels, x, f.get('fs', 30000.))
+        lab, feats = call_detect(x, f.get('fs', 30000.), f.get('form'))
     except Exception as e:  # noqa
-        return f'detect_bad_channels raised {type(e).__name__}: {e}', None, None
+        return f'detect_bad_channels raised {type(e).__name__}: {e} (form {f.get("form")})', None, None
     lab = np.asarray(lab)
     exp = fault_expected(f['nc'], f.get('dead'), f.get('noisy'), f.get('top', 0))
     if lab.shape != exp.shape:
@@ -504,6 +626,7 @@ def fault_cases(ctx, n):
                 f['noisy'] = cand
                 f['noisy_kind'] = kind
         assert fault_in_domain(f)
+        f['form'] = draw_detect_form(rng)
         out.append(f)
     return out
 
@@ -552,15 +675,14 @@ def corr_labels(ctx, extra):
         r = rng.random()
         thr = (-0.5, 1.) if r < .6 else (float(rng.choice([-0.3, -0.7, -0.5])), float(rng.choice([0.8, 1.0, 1.5])))
         psd = None if rng.random() < .7 else float(rng.choice([0.02, 0.05, 1.4, 0.01]))
-        kw = {}
-        if thr != (-0.5, 1.):
-            kw['similarity_threshold'] = thr
-        if psd is not None:
-            kw['psd_hf_threshold'] = psd
-        lab, feats = _quiet(voltage.detect_bad_channels, x, fs, **kw)
-        desc = {'op': 'labels', 'nc': nc, 'fs': fs, 'ns': ns, 'thr': list(thr), 'psd_thr': psd, 'x00': float(x[0, 0])}
+        kw = thr != (-0.5, 1.) or psd is not None
+        form = draw_detect_form(rng)
+        lab, feats = call_detect(x, fs, form, thr if thr != (-0.5, 1.) else None, psd)
+        desc = {'op': 'labels', 'nc': nc, 'fs': fs, 'ns': ns, 'thr': list(thr), 'psd_thr': psd, 'x00': float(x[0, 0]),
+                'form': '/'.join(form[k] for k in ('dtype', 'order', 'fs', 'call'))}
         jobs.append((desc, nc, fs, thr, psd, np.asarray(lab), feats, ('labels', 'gain-profile', 'band=' + ('ap' if fs > 2600 else 'lf'),
-                     'default-thr' if not kw else 'explicit-thr') + tuple(kinds)))
+                     'default-thr' if not kw else 'explicit-thr', 'raw=' + form['dtype'], 'raw-order=' + form['order'],
+                     'fs-form=' + form['fs'], 'detect-call=' + form['call']) + tuple(kinds)))
     for desc, nc, fs, lab, feats in extra:
         jobs.append((desc, nc, fs, (-0.5, 1.), None, np.asarray(lab), feats, ('labels', 'fault-injection', 'band=ap', 'default-thr')))
     lines = [_labels_line(nc, fs, thr, psd, feats) for (_, nc, fs, thr, psd, _, feats, _) in jobs]
@@ -579,62 +701,97 @@ def corr_labels(ctx, extra):
 # ---------------------------------------------------------------------------------------------
 # (c) detect_bad_channels_cbin: mode across batches, batch positions
 # ---------------------------------------------------------------------------------------------
-def _run_cbin(x, fs, n_batches, dur, planted=None):
-    """write x (nc, ns volts, float32) to a flat binary, run the real detect_bad_channels_cbin on a Reader that records
-    the sample slices it is asked for; the per-batch labels are recorded by a wrapper around the real
-    detect_bad_channels (which may substitute planted label vectors to reach ties).
+CBIN_FORM = dict(file='reader', call='kw', nb='int')
+
+
+def _run_cbin(x, fs, n_batches, dur, planted=None, form=None):
+    """write x (nc, ns volts) to a binary file and run the real detect_bad_channels_cbin on it, in a given input form:
+      file='reader': flat float32 file opened as spikeglx.Reader (explicit nc/fs) and passed as an open Reader;
+      file='str' / 'Path': 384 + 1 sync channel int16 file (the layout a meta-less Reader recognises), passed as a path;
+      call: n_batches / batch_duration as keywords or positionally (current signature order); nb as int or np.int64.
+    The sample slices asked of the Reader are recorded (class-level wrapper of Reader.__getitem__), the per-batch labels by a
+    wrapper around the real detect_bad_channels (which may substitute planted label vectors to reach ties).
     Returns (flags, [batch labels], [(start, stop)])."""
     import spikeglx
+    import neuropixel
     from ibldsp import voltage
+    f = dict(CBIN_FORM)
+    f.update(form or {})
     nc, ns = x.shape
     tmp = Path(tempfile.mkdtemp(prefix='c15_'))
+    slices, batches = [], []
+    real = voltage.detect_bad_channels
+    real_getitem = spikeglx.Reader.__getitem__
+
+    def getitem(self, item):
+        s_ = item[0] if isinstance(item, tuple) else item
+        slices.append((s_.start, s_.stop))
+        return real_getitem(self, item)
+
+    def wrapper(raw, fs, **kw):
+        lab, feats = real(raw, fs, **kw)
+        if planted is not None:
+            lab = np.asarray(planted[len(batches)], dtype=float)
+        batches.append(np.asarray(lab).copy())
+        return lab, feats
+
+    sr = None
     try:
-        f = tmp / 'rec.bin'
-        np.ascontiguousarray(x.T.astype(np.float32)).tofile(f)
-        slices, batches = [], []
-
-        class Rec(spikeglx.Reader):
-            def __getitem__(self, item):
-                s = item[0] if isinstance(item, tuple) else item
-                slices.append((s.start, s.stop))
-                return super().__getitem__(item)
-
-        real = voltage.detect_bad_channels
-
-        def wrapper(raw, fs, **kw):
-            lab, feats = real(raw, fs, **kw)
-            if planted is not None:
-                lab = np.asarray(planted[len(batches)], dtype=float)
-            batches.append(np.asarray(lab).copy())
-            return lab, feats
-
-        sr = Rec(f, nc=nc, ns=ns, fs=fs, dtype='float32', s2v=1.0, nsync=0)
+        if f['file'] == 'reader':
+            fn = tmp / 'rec.bin'
+            np.ascontiguousarray(x.T.astype(np.float32)).tofile(fn)
+            sr = arg = spikeglx.Reader(fn, nc=nc, ns=ns, fs=fs, dtype='float32', s2v=1.0, nsync=0)
+        else:
+            assert nc == 384 and fs == 30000 and ns % 192 != 0
+            fn = tmp / 'rec.ap.bin'
+            cnt = np.zeros((ns, 385), dtype=np.int16)
+            cnt[:, :384] = np.clip(np.rint(x.T / neuropixel.S2V_AP), -32768, 32767)
+            cnt.tofile(fn)
+            arg = str(fn) if f['file'] == 'str' else fn
+        nbv = np.int64(n_batches) if f['nb'] == 'np.int64' else int(n_batches)
         voltage.detect_bad_channels = wrapper
+        spikeglx.Reader.__getitem__ = getitem
         try:
-            flags = _quiet(voltage.detect_bad_channels_cbin, sr, n_batches=n_batches, batch_duration=dur)
+            if f['call'] == 'pos':
+                flags = _quiet(voltage.detect_bad_channels_cbin, arg, nbv, dur)
+            else:
+                flags = _quiet(voltage.detect_bad_channels_cbin, arg, n_batches=nbv, batch_duration=dur)
         finally:
             voltage.detect_bad_channels = real
-            sr.close()
+            spikeglx.Reader.__getitem__ = real_getitem
         return np.asarray(flags), batches, slices
     finally:
+        if sr is not None:
+            sr.close()
         shutil.rmtree(tmp, ignore_errors=True)
 
 
 def cbin_cases(ctx, n):
     rng = ctx.rng
     out = []
-    for _ in range(n):
-        fs = int(rng.choice([30000, 30000, 2500, 20000]))
-        nc = int(rng.integers(12, 40))
-        dur = float(rng.choice([0.3, 0.3, 0.1, 0.05, 0.25]))
-        nb = int(rng.choice([10, 10, 1, 2, 3, 4, 5, 7, 12]))
-        nsb = int(dur * fs)
-        ns = int(rng.choice([nsb, nsb + 1, nsb * 2, nsb * nb, int(nsb * nb * 1.37) + 3, int(rng.integers(nsb, nsb * 15))]))
-        ns = min(ns, 200000)
-        while (ns * nc * 4) % 768 == 0 or (ns * nc * 4) % 770 == 0:   # a meta-less Reader guesses 384/385 channels + sync from such sizes
-            ns += 1
+    for k in range(n):
+        form = dict(file='reader', call=str(rng.choice(['kw', 'pos'])), nb=str(rng.choice(['int', 'np.int64'], p=[.7, .3])))
+        if k < 2 or rng.random() < .1:          # given a path: a 384 + sync int16 file at 30 kHz (what a meta-less Reader recognises)
+            form['file'] = ('str', 'Path')[k] if k < 2 else str(rng.choice(['str', 'Path']))
+            fs, nc = 30000, 384
+            dur = float(rng.choice([0.05, 0.1]))
+            nb = int(rng.choice([1, 2, 3]))
+            nsb = int(dur * fs)
+            ns = int(rng.integers(nsb, 3 * nsb))
+            while ns % 192 == 0:
+                ns += 1
+        else:
+            fs = int(rng.choice([30000, 30000, 2500, 20000]))
+            nc = int(rng.integers(12, 40))
+            dur = float(rng.choice([0.3, 0.3, 0.1, 0.05, 0.25]))
+            nb = int(rng.choice([10, 10, 1, 2, 3, 4, 5, 7, 12]))
+            nsb = int(dur * fs)
+            ns = int(rng.choice([nsb, nsb + 1, nsb * 2, nsb * nb, int(nsb * nb * 1.37) + 3, int(rng.integers(nsb, nsb * 15))]))
+            ns = min(ns, 200000)
+            while (ns * nc * 4) % 768 == 0 or (ns * nc * 4) % 770 == 0:   # a meta-less Reader guesses 384/385 channels + sync from such sizes
+                ns += 1
         out.append(dict(seed=int(rng.integers(0, 2 ** 31)), fs=fs, nc=nc, dur=dur, nb=nb, ns=ns,
-                        planted=bool(rng.random() < .6)))
+                        planted=bool(rng.random() < .6), form=form))
     return out
 
 
@@ -663,7 +820,7 @@ def oracle_cbin(c):
     scipy.stats.mode documents); batches evenly spaced from the start of the file to its end."""
     x, planted = build_cbin(c)
     try:
-        flags, batches, slices = _run_cbin(x, c['fs'], c['nb'], c['dur'], planted)
+        flags, batches, slices = _run_cbin(x, c['fs'], c['nb'], c['dur'], planted, c.get('form'))
     except Exception as e:  # noqa
         return f'detect_bad_channels_cbin raised {type(e).__name__}: {e}', None
     nc = c['nc']
@@ -697,10 +854,11 @@ def corr_cbin(ctx):
     lines, meta = [], []
     for c in cases:
         x, planted = build_cbin(c)
-        desc = {'op': 'mode', **{k: c[k] for k in ('seed', 'fs', 'nc', 'dur', 'nb', 'ns', 'planted')}}
+        desc = {'op': 'mode', **{k: c[k] for k in ('seed', 'fs', 'nc', 'dur', 'nb', 'ns', 'planted')},
+                'form': '/'.join((c.get('form') or CBIN_FORM)[k] for k in ('file', 'call', 'nb'))}
         pay = {'kind': 'cbin', **c}
         try:
-            flags, batches, slices = _run_cbin(x, c['fs'], c['nb'], c['dur'], planted)
+            flags, batches, slices = _run_cbin(x, c['fs'], c['nb'], c['dur'], planted, c.get('form'))
         except Exception as e:  # noqa
             if not ctx.compare('mode', desc, f'err {type(e).__name__}: {e}'[:200], 'ok', tags=('mode', 'raised')):
                 ctx.mismatches[-1]['payload'] = pay
@@ -713,7 +871,7 @@ def corr_cbin(ctx):
         cnts = [collections.Counter(int(b[ch]) for b in batches) for ch in range(c['nc'])]
         ties = sum(1 for k in cnts if sorted(k.values())[-2:].count(max(k.values())) == 2)
         meta.append(('mode', desc, 'ok ' + _ints(flags) if np.all(flags == np.round(flags)) else f'non-integer {flags[:6]}',
-                     len(set(flat.tolist())) > 1, ('mode', 'planted' if c['planted'] else 'observed', 'ties' if ties else 'no-ties',
+                     len(set(flat.tolist())) > 1, ('mode', 'file=' + (c.get('form') or CBIN_FORM)['file'], 'cbin-call=' + (c.get('form') or CBIN_FORM)['call'], 'planted' if c['planted'] else 'observed', 'ties' if ties else 'no-ties',
                                                    'nb=1' if c['nb'] == 1 else 'nb=2..5' if c['nb'] <= 5 else 'nb>5'), pay))
         lines.append(f'slices {c["ns"]} {_bits([float(c["fs"])])} {_bits([c["dur"]])} {c["nb"]}')
         d2 = dict(desc); d2['op'] = 'slices'
@@ -753,7 +911,8 @@ def correspondence(ctx):
         desc = {'op': 'fault', **f}
         kinds = ('fault', 'nc=%d' % f['nc'], 'top=0' if f['top'] == 0 else 'top=1..5' if f['top'] <= 5 else 'top>5',
                  'dead=none' if f['dead'] is None else 'dead-near-end' if f['dead'] <= 2 or f['dead'] >= f['nc'] - f['top'] - 9 else 'dead-inside',
-                 'noisy=none' if f['noisy'] is None else 'noisy-' + f['noisy_kind'] + ('-in-top-block' if f['noisy'] >= f['nc'] - f['top'] else ''))
+                 'noisy=none' if f['noisy'] is None else 'noisy-' + f['noisy_kind'] + ('-in-top-block' if f['noisy'] >= f['nc'] - f['top'] else ''),
+                 'raw=' + f['form']['dtype'], 'raw-order=' + f['form']['order'], 'fs-form=' + f['form']['fs'], 'detect-call=' + f['form']['call'])
         ctx.compare('fault', desc, 'ok' if r is None else r, 'ok', tags=kinds)
         if r is not None:
             ctx.mismatches[-1]['payload'] = {'kind': 'fault', **f}
@@ -803,12 +962,17 @@ def _small_interp_neighbourhood():
                 x, y = geometry(gk, nc, rng)
             for code in range(4 ** nc):
                 lab = np.array([(code // 4 ** k) % 4 for k in range(nc)], dtype=int)
-                for dk in ('const', 'outlier', 'nan-bad', 'inf-bad'):
-                    d = data_matrix('const' if dk.endswith('-bad') else dk, nc, 1, lab, y, rng)
+                for dk in ('const', 'outlier', 'nan-bad', 'inf-bad', 'const-int16', 'const-f32-F-pos'):
+                    d = data_matrix('outlier' if dk == 'outlier' else 'const', nc, 1, lab, y, rng)
                     if dk != 'outlier':
                         d[:] = 10.0
-                        d[(lab == 1) | (lab == 2)] = {'const': -500.0, 'nan-bad': np.nan, 'inf-bad': np.inf}[dk]
-                    out.append(dict(nc=nc, ns=1, lab=lab, x=x, y=y, data=d, p=1.3, krig=20., f32=False, tags=()))
+                        d[(lab == 1) | (lab == 2)] = {'nan-bad': np.nan, 'inf-bad': np.inf}.get(dk, -500.0)
+                    form = dict(DEFAULT_FORM)
+                    if dk == 'const-int16':
+                        form.update(dtype='int16', labels='float64', xy='int' if gk == 'line' else 'float64')
+                    elif dk == 'const-f32-F-pos':
+                        form.update(dtype='float32', order='F', call='pos')
+                    out.append(dict(nc=nc, ns=1, lab=lab, x=x, y=y, data=d, p=1.3, krig=20., f32=form['dtype'] == 'float32', form=form, tags=()))
     return out
 
 
@@ -916,6 +1080,7 @@ def search(ctx, reasons):
                 nz = int(rng.integers(0, nc))
                 if k % 3 != 2 and noisy_position_allowed(nc, nz, f['noisy_kind'], top, f['dead']):
                     f['noisy'] = nz
+                f['form'] = draw_detect_form(rng)
                 if consider(f):
                     break
             if best:
@@ -974,5 +1139,20 @@ def _kf_below_block():
     return bad == 12
 
 
+def _kf_int_truncation():
+    """integer-typed data: `data[i, :] = <float64 weighted mean>` truncates toward zero, so a constant field c comes back as c-1
+    whenever the float sum lands just below c (99.99999999999999 -> 99): outside the donors' range, by less than one count"""
+    from ibldsp import voltage
+    import neuropixel
+    h = neuropixel.trace_header(version=1)
+    lab = np.array([1, 0, 0, 0, 2, 3, 1, 1])
+    hits = 0
+    for dt in (np.int16, np.int32):
+        d = np.full((8, 2), 100, dtype=dt)
+        r = _quiet(voltage.interpolate_bad_channels, d, lab, h['x'][:8].astype(float), h['y'][:8].astype(float))
+        hits += int(np.any(r[(lab == 1) | (lab == 2)] == 99))
+    return hits == 2
+
+
 def known_findings(ctx):
-    return {'dead-at-probe-ends': _kf_probe_ends, 'dead-just-below-top-block': _kf_below_block}
+    return {'dead-at-probe-ends': _kf_probe_ends, 'dead-just-below-top-block': _kf_below_block, 'int-data-truncation': _kf_int_truncation}
